@@ -53,6 +53,10 @@ def validate(rd, traces, invariants, tag, chunk=6, par=6):
                 index.append((n + 1, t))
                 for line in open(t):
                     if line.strip():
+                        try:
+                            json.loads(line)      # a run cut short by the watchdog ends mid-line
+                        except Exception:
+                            continue
                         out.write(line if line.endswith("\n") else line + "\n")
                         n += 1
         cfg = os.path.join(rd, "%s_group%d.cfg" % (tag, gi))
